@@ -6,6 +6,7 @@ import (
 	"encoding/binary"
 	"fmt"
 	"hash/fnv"
+	"math"
 	"os"
 	"reflect"
 	"runtime"
@@ -112,13 +113,39 @@ func frameRaw(magic uint32, cmd string, length uint32, sum [pc.CHECKSUM_LEN]byte
 
 // ---------------------------------------------------------------- allocation measurement
 
-var msample = []metrics.Sample{{Name: "/gc/heap/allocs:bytes"}}
+var msample = []metrics.Sample{{Name: "/gc/heap/allocs:bytes"}, {Name: "/gc/heap/allocs-by-size:bytes"}}
 
-// allocNow is cheap and exact for large objects (small-object counts lag by at most one
-// span per size class); every excess is confirmed with exactAlloc before it is reported.
-func allocNow() uint64 {
+// allocNow returns the cumulative bytes allocated and the part of it that went into large
+// objects (> 32 KiB, the runtime's largest size class).
+//
+// The large-object figure is exact and immediate (the runtime counts large allocations
+// when they happen) and it is the quantity the property is about: memory obtained because
+// a *declared* count or length said so is one big make()/growslice, whereas the garbage of
+// honest work on bytes that are present (big.Int arithmetic while decompressing a public
+// key allocates ~0.5 MB of 100-byte objects) is many small objects.  The total lags by up
+// to one span per size class for small objects; it is used for the "rejected before the
+// payload buffer exists" clause only, and every excess there is confirmed with exactAlloc.
+func allocNow() (total, large uint64) {
 	metrics.Read(msample)
-	return msample[0].Value.Uint64()
+	total = msample[0].Value.Uint64()
+	h := msample[1].Value.Float64Histogram()
+	var small uint64
+	for i, c := range h.Counts {
+		hi := h.Buckets[i+1]
+		if math.IsInf(hi, 1) {
+			continue
+		}
+		small += c * uint64(hi-1) // bucket i holds the objects of the size class hi-1
+	}
+	return total, total - small
+}
+
+// largeAllocOf re-measures one call (confirmation of an excess).
+func largeAllocOf(f func()) uint64 {
+	_, a := allocNow()
+	f()
+	_, b := allocNow()
+	return b - a
 }
 
 func exactAlloc(f func()) uint64 {
@@ -143,22 +170,23 @@ const (
 // ---------------------------------------------------------------- child state
 
 type child struct {
-	batch    batch
-	log      *proc.CaseLog
-	out      *os.File
-	fp       *bufio.Writer
-	fpFile   *os.File
-	idx      uint64 // next case index
-	start    uint64 // skip cases below (restart after a death)
-	inc      int
-	ctr      map[string]int64
-	evals    int64
-	maxAlloc uint64
-	maxAmp   float64
-	violSeen map[string]int
-	seen     map[uint64]struct{}
-	cur      *hcase
-	secs     float64
+	batch      batch
+	log        *proc.CaseLog
+	out        *os.File
+	fp         *bufio.Writer
+	fpFile     *os.File
+	idx        uint64 // next case index
+	start      uint64 // skip cases below (restart after a death)
+	inc        int
+	ctr        map[string]int64
+	evals      int64
+	maxAlloc   uint64
+	maxAmp     float64
+	violSeen   map[string]int
+	seen       map[uint64]struct{}
+	cur        *hcase
+	secs       float64
+	scanStride int
 }
 
 func (c *child) count(k string) { c.ctr[k]++ }
@@ -241,7 +269,7 @@ func (c *child) checkPayload(cmd string, payload []byte, tag string, oneByte boo
 	var err error
 	rd := bytes.NewReader(fr)
 	var stack []byte
-	a0 := allocNow()
+	_, a0 := allocNow()
 	p := vf.Catch(func() {
 		defer func() {
 			if e := recover(); e != nil {
@@ -251,7 +279,8 @@ func (c *child) checkPayload(cmd string, payload []byte, tag string, oneByte boo
 		}()
 		msg, n, err = mt.ReadMessage(rd)
 	})
-	alloc := allocNow() - a0
+	_, a1 := allocNow()
+	alloc := a1 - a0
 	c.count("hostile:" + name)
 	c.count("mut:" + tagClass(tag))
 	if p != nil {
@@ -263,10 +292,10 @@ func (c *child) checkPayload(cmd string, payload []byte, tag string, oneByte boo
 	// allocation bound
 	bound := uint64(pc.MSG_HDR_LEN) + uint64(len(payload))*(1+ampK) + allocSlack
 	if alloc > bound {
-		ex := exactAlloc(func() { vf.Catch(func() { mt.ReadMessage(bytes.NewReader(fr)) }) })
+		ex := largeAllocOf(func() { vf.Catch(func() { mt.ReadMessage(bytes.NewReader(fr)) }) })
 		if ex > bound {
 			c.count("alloc_excess")
-			c.violation("alloc:decode:"+name, fmt.Sprintf("decoding a %d-byte %s payload allocated %d bytes (allowance %d = header + L + %d·L + %d)", len(payload), name, ex, bound, ampK, allocSlack),
+			c.violation("alloc:decode:"+name, fmt.Sprintf("decoding a %d-byte %s payload allocated %d bytes in large objects (allowance %d = header + L + %d·L + %d)", len(payload), name, ex, bound, ampK, allocSlack),
 				map[string]interface{}{"allocated": ex, "allowance": bound})
 		} else {
 			c.count("alloc_excess_not_confirmed")
@@ -511,9 +540,10 @@ func (c *child) checkStream(hc *hcase) {
 	var msg mt.Message
 	var n uint32
 	var err error
-	a0 := allocNow()
+	t0, l0 := allocNow()
 	p := vf.Catch(func() { msg, n, err = mt.ReadMessage(rd) })
-	alloc := allocNow() - a0
+	t1, l1 := allocNow()
+	alloc, large := t1-t0, l1-l0
 	cls := tagClass(hc.tag)
 	c.count("stream:" + cls)
 	if p != nil {
@@ -574,8 +604,10 @@ func (c *child) checkStream(hc *hcase) {
 		if pc.Checksum(body) != sum {
 			c.violation("accept:stream:bad-checksum", "message accepted although the checksum does not match the body", nil)
 		}
-		if ex, ok := confirm(uint64(pc.MSG_HDR_LEN) + uint64(n)*(1+ampK) + allocSlack); !ok {
-			c.violation("alloc:stream:"+cls, fmt.Sprintf("allocated %d bytes for a %d-byte body", ex, n), nil)
+		if bound := uint64(pc.MSG_HDR_LEN) + uint64(n)*(1+ampK) + allocSlack; large > bound {
+			if ex := largeAllocOf(func() { vf.Catch(func() { mt.ReadMessage(bytes.NewReader(stream)) }) }); ex > bound {
+				c.violation("alloc:stream:"+cls, fmt.Sprintf("allocated %d bytes in large objects for a %d-byte body", ex, n), nil)
+			}
 		}
 		cmd := string(bytes.TrimRight(stream[4:16], "\x00"))
 		_ = msg
@@ -674,7 +706,18 @@ func childMain(specStr string) {
 	}
 	c := &child{batch: b, log: lg, out: out, fpFile: fpf, fp: bufio.NewWriterSize(fpf, 1<<16), start: start, inc: inc,
 		ctr: map[string]int64{}, violSeen: map[string]int{}, seen: map[uint64]struct{}{}}
+	// the parts of one (type, round) must build the same seed values: their position scans
+	// partition the positions of one payload
 	rng := vf.NewRNG(vf.Seed()).Sub(0xC24000 + uint64(bi))
+	if b.Kind == "payload" {
+		ti := 0
+		for i := range specs {
+			if specs[i].cmd == b.Cmd {
+				ti = i
+			}
+		}
+		rng = vf.NewRNG(vf.Seed()).Sub(0xC25000 + uint64(b.Round)*64 + uint64(ti))
+	}
 	t0 := time.Now()
 	if pf := os.Getenv("C24_PROF"); pf != "" {
 		f, _ := os.Create(fmt.Sprintf("%s.%d", pf, bi))
